@@ -429,6 +429,11 @@ class IndexLevel:
         if not hasattr(key, '__iter__') or isinstance(key, str):
             return False
 
+        key = tuple(key)
+        if len(key) != self.depth:
+            # a key with fewer or more components than the depth is not a leaf loc
+            return False
+
         node = self
         for k in key:
             if not node.index.__contains__(k):
